@@ -10,12 +10,13 @@ from props.base import Context  # noqa: F401
 
 PID = 'C12'
 TIE_MODULES = ['DiffxVerif.Tie.Sections']
+NEEDS = ['sections']
 ASSUMPTIONS = [
     'unknown keys are drawn from the key grammar minus the six names the reader looks up; values from the value grammar (plain integers are expected back as integers)',
 ]
 KNOWN = {'encoding', 'length', 'indent', 'line_endings', 'format', 'version'}
 KEYS = ['x', 'X-Custom', 'future_option', 'a1', 'mimetype2', 'Length', 'lengths', 'encodin', 'z-9_', 'type2', 'vendor-ext']
-VALUES = ['1', 'abc', '007', '-5', 'text/plain', 'a.b_c-d', 'v' * 300, '0', 'utf-8', 'unix', '12345678901234567890123', 'A/B/c']
+VALUES = ['1', 'abc', '007', '-5', 'text/plain', 'a.b_c-d', 'v' * 300, 'w' * 1100, 'x' * 5000, '0', 'utf-8', 'unix', '12345678901234567890123', 'A/B/c']
 
 
 def extend(rng, data):
@@ -54,11 +55,12 @@ def extend(rng, data):
         pairs = optstr.split(b', ') if optstr else []
         have = {p.split(b'=')[0].decode() for p in pairs}
         new = {}
-        for _k in range(rng.choice([1, 1, 2, 3])):
-            k = rng.choice(KEYS)
+        many = rng.random() < 0.12
+        for _k in range(rng.choice([40, 80, 150]) if many else rng.choice([1, 1, 2, 3])):
+            k = ('opt%d' % _k) if many else rng.choice(KEYS)
             if k in have or k in new or k in KNOWN:
                 continue
-            v = rng.choice(VALUES)
+            v = rng.choice(VALUES[:6] if many else VALUES)
             new[k] = v
             pairs.insert(rng.randint(0, len(pairs)), ('%s=%s' % (k, v)).encode())
         if not new:
@@ -100,7 +102,7 @@ class Spec(object):
                 yield {'orig': data, 'ext': r[0], 'added': r[1]}
 
     def request(self, case):
-        return 'read %d %s' % (int(self.tables['chunk']), common.enc_bytes(case['ext']))
+        return 'read %d %s' % ((int(self.tables['chunk']) or 96), common.enc_bytes(case['ext']))
 
     def impl(self, case):
         return adapters.impl_read(case['ext'])
@@ -145,7 +147,7 @@ def explore(ctx, escalate=False, hint=None):
     else:
         budget = (500, 4)
     rule = ('%d files (half writer-produced, half foreign from the specification generator) x %d extensions: 1-3 headers '
-            'each receive 1-3 unknown options (11 keys x 12 values incl. long, numeric, negative, path-like) at random '
+            'each receive 1-3 (12%%: 40-150) unknown options (11 keys x 14 values incl. 300 / 1100 / 5000-character, numeric, negative, path-like) at random '
             'positions of the option list; oracle: same outcome, same records except the added keys (integers converted); '
             'distinct by extended file' % budget)
     return base.explore_generic(ctx, Spec(ctx.tables), budget, rule, chunk=1500)
